@@ -93,6 +93,7 @@ func cmdFunc(args []string) {
 	timeout := fs.Int("timeout", 10, "")
 	verbose := fs.Bool("v", false, "")
 	dump := fs.String("dump", "", "write the SMT script of the obligation whose name contains this string")
+	nosolve := fs.Bool("nosolve", false, "only generate VCs and report engine limits")
 	fs.Parse(args)
 	eng := mustEngine(*repo, *contracts, nil)
 	fns := eng.functionsByKey(fs.Args())
@@ -106,6 +107,15 @@ func cmdFunc(args []string) {
 	var vcs []*VC
 	for _, fn := range fns {
 		vcs = append(vcs, eng.verifyFunc(fn, classSet(*classes)))
+	}
+	if *nosolve {
+		for _, vc := range vcs {
+			fmt.Printf("== %s: %d facts, %d obligations\n", vc.name, len(vc.facts), len(vc.obls))
+			for _, u := range vc.unsup {
+				fmt.Println("   UNSUPPORTED:", u)
+			}
+		}
+		return
 	}
 	t0 := time.Now()
 	c, k := solveAll(vcs, SolveOpts{TimeoutS: *timeout, Dir: dir}, stats)
@@ -149,6 +159,9 @@ func cmdFunc(args []string) {
 			}
 			if !o.discharged() || *verbose {
 				fmt.Printf("   %s %-8s %-10s %5dms %s  [%s]\n", ok, o.Status, o.Backend, o.Ms, o.Name, o.Pos)
+				if !o.discharged() && *verbose {
+					fmt.Println("         answers:", o.Extra["answers"])
+				}
 				if !o.discharged() && o.Output != "" && *verbose {
 					fmt.Println("        ", truncate(o.Output, 300))
 				}
